@@ -1,8 +1,114 @@
 import Driver.Codec
+import Driver.C05
+import LopdfModel.Spec.SecHandler
+import LopdfModel.Spec.Hash
+import LopdfModel.Spec.Aes
 namespace Lopdf.Driver.C06
-open Lopdf Lopdf.Codec
+open Lopdf Lopdf.Codec Lopdf.Spec.Sec Lopdf.Driver.C05
 
-/-- protocol operations of property C06: `none` = not an operation of this property. -/
-def handle (op : String) (args : List String) : Option String := none
+/-- Spec RC4, written from the algorithm description with arithmetic mod 256 on naturals
+(independent of the model's RC4 in Model/Crypt.lean). -/
+def specRc4 (key data : Bytes) : Bytes := Id.run do
+  if key.isEmpty then return []
+  let kl := key.length
+  let ka := key.toArray
+  let mut s : Array Nat := Array.range 256
+  let mut j := 0
+  for i in [0:256] do
+    j := (j + s[i]! + (ka[i % kl]!).toNat) % 256
+    let t := s[i]!; s := s.set! i s[j]!; s := s.set! j t
+  let mut i := 0
+  j := 0
+  let mut out : Array UInt8 := #[]
+  for b in data do
+    i := (i + 1) % 256
+    j := (j + s[i]!) % 256
+    let t := s[i]!; s := s.set! i s[j]!; s := s.set! j t
+    out := out.push (b ^^^ (s[(s[i]! + s[j]!) % 256]!).toUInt8)
+  return out.toList
+
+/-- the ISO transcription run on Lean reference primitives -/
+def SP : SPrims :=
+  { md5 := Spec.md5, sha256 := Spec.sha256, sha384 := Spec.sha384, sha512 := Spec.sha512,
+    aesEnc := Spec.aesEncBlock, aesDec := Spec.aesDecBlock, rc4 := specRc4 }
+
+def pOptBytes : Parser (Option Bytes)
+  | "none" :: rest => some (none, rest)
+  | t :: rest => (bytesOfHex t).map (fun b => (some b, rest))
+  | [] => none
+
+def pParams : Parser Params := fun ts => do
+  let (r, ts) ← pNat ts; let (n, ts) ← pNat ts; let (p, ts) ← pNat ts; let (em, ts) ← pBool ts; let (fid, ts) ← pBytes ts
+  pure ({ r, n, p, fileId := fid, encryptMetadata := em }, ts)
+
+def b01 (b : Bool) : String := if b then "1" else "0"
+
+def handle (op : String) (args : List String) : Option String :=
+  match op with
+  | "c6_selftest" => some <|
+      -- RFC 1321 / FIPS 180-4 / FIPS 197 / RC4 ("Key","Plaintext") vectors
+      let abc := "abc".toUTF8.toList
+      let ok := hexOfBytes (Spec.md5 abc) == "900150983cd24fb0d6963f7d28e17f72"
+        && hexOfBytes (Spec.sha256 abc) == "ba7816bf8f01cfea414140de5dae2223b00361a396177a9cb410ff61f20015ad"
+        && hexOfBytes ((Spec.sha384 abc).take 8) == "cb00753f45a35e8b"
+        && hexOfBytes ((Spec.sha512 abc).take 8) == "ddaf35a193617aba"
+        && hexOfBytes (Spec.aesEncBlock ((List.range 16).map Nat.toUInt8) ((List.range 16).map fun i => (i * 17).toUInt8)) == "69c4e0d86a7b0430d8cdb78070b4c55a"
+        && hexOfBytes (Spec.aesEncBlock ((List.range 32).map Nat.toUInt8) ((List.range 16).map fun i => (i * 17).toUInt8)) == "8ea2b7ca516745bfeafc49904b496089"
+        && hexOfBytes (specRc4 "Key".toUTF8.toList "Plaintext".toUTF8.toList) == "bbf316e8d940af0ad3"
+      if ok then "ok" else "FAILED"
+  | "c6_prim" => some <| match args with
+      | [which, d] => match bytesOfHex d with
+        | some d => "ok " ++ hexTok (match which with
+            | "md5" => Spec.md5 d | "sha256" => Spec.sha256 d | "sha384" => Spec.sha384 d | "sha512" => Spec.sha512 d | _ => [])
+        | none => "bad-op"
+      | [which, k, d] => match bytesOfHex k, bytesOfHex d with
+        | some k, some d => "ok " ++ hexTok (match which with
+            | "aesenc" => Spec.aesEncBlock k d | "aesdec" => Spec.aesDecBlock k d | "rc4" => specRc4 k d | _ => [])
+        | _, _ => "bad-op"
+      | _ => "bad-op"
+  | "c6_hash2b" => some <| Lopdf.Driver.C05.run (fun ts => do
+        let (pw, ts) ← pBytes ts; let (salt, ts) ← pBytes ts; let (u, ts) ← pBytes ts; pure ((pw, salt, u), ts)) args
+      fun (pw, salt, u) => "ok " ++ hexTok (alg2B SP pw salt u)
+  -- revisions 2–4: O, significant part of U, file key
+  | "c6_dict" => some <| Lopdf.Driver.C05.run (fun ts => do
+        let (q, ts) ← pParams ts; let (o, ts) ← pOptBytes ts; let (u, ts) ← pBytes ts; pure ((q, o, u), ts)) args
+      fun (q, owner, user) =>
+        let o := alg3 SP q owner user
+        let u := if q.r = 2 then alg4 SP q o user else alg5 SP q o user
+        "ok " ++ hexTok o ++ " " ++ hexTok u ++ " " ++ hexTok (alg2 SP q o user)
+  -- authentication R2–4: owner? user?  (Algorithm 7, Algorithm 6)
+  | "c6_auth" => some <| Lopdf.Driver.C05.run (fun ts => do
+        let (q, ts) ← pParams ts; let (o, ts) ← pBytes ts; let (u, ts) ← pBytes ts; let (pw, ts) ← pBytes ts; pure ((q, o, u, pw), ts)) args
+      fun (q, o, u, pw) => "ok " ++ b01 (alg7 SP q o u pw).isSome ++ " " ++ b01 (alg6 SP q o u pw).isSome
+  -- revision 5 / 6: U UE O OE (Perms is reported separately: see c6_perms)
+  | "c6_dict6" => some <| Lopdf.Driver.C05.run (fun ts => do
+        let (r, ts) ← pNat ts; let (key, ts) ← pBytes ts; let (opw, ts) ← pBytes ts; let (upw, ts) ← pBytes ts
+        let (us, ts) ← pBytes ts; let (os, ts) ← pBytes ts; pure ((r, key, opw, upw, us, os), ts)) args
+      fun (r, key, opw, upw, us, os) =>
+        let (u, ue) := alg8 SP r upw key us
+        let (o, oe) := alg9 SP r opw key os u
+        "ok " ++ hexTok u ++ " " ++ hexTok ue ++ " " ++ hexTok o ++ " " ++ hexTok oe
+  | "c6_perms" => some <| Lopdf.Driver.C05.run (fun ts => do
+        let (p, ts) ← pNat ts; let (em, ts) ← pBool ts; let (key, ts) ← pBytes ts; let (rnd, ts) ← pBytes ts; pure ((p, em, key, rnd), ts)) args
+      fun (p, em, key, rnd) => "ok " ++ hexTok (alg10 SP p em key rnd)
+  | "c6_key6" => some <| Lopdf.Driver.C05.run (fun ts => do
+        let (r, ts) ← pNat ts; let (o, ts) ← pBytes ts; let (u, ts) ← pBytes ts; let (oe, ts) ← pBytes ts; let (ue, ts) ← pBytes ts
+        let (pw, ts) ← pBytes ts; pure ((r, o, u, oe, ue, pw), ts)) args
+      fun (r, o, u, oe, ue, pw) => match alg2A SP r o u oe ue pw with
+        | some k => "ok " ++ hexTok k
+        | none => "rejected"
+  -- string / stream data: Algorithm 1 (RC4, AESV2) and 1.A (AESV3)
+  | "c6_data" => some <| match args with
+      | [m, key, num, gen, iv, d] =>
+        match bytesOfHex key, num.toNat?, gen.toNat?, bytesOfHex iv, bytesOfHex d with
+        | some key, some num, some gen, some iv, some d =>
+          "ok " ++ hexTok (match m with
+            | "V2" => SP.rc4 (objectKey SP key num gen false) d
+            | "AESV2" => aesData SP (objectKey SP key num gen true) iv d
+            | "AESV3" => aesData SP key iv d
+            | _ => [])
+        | _, _, _, _, _ => "bad-op"
+      | _ => "bad-op"
+  | _ => none
 
 end Lopdf.Driver.C06
